@@ -248,6 +248,14 @@ class XExprEvaluator(ModelVisitor):
         else:
             self.is_x = False
             self.val = f.get_val()
+            if f.is_signed:
+                # The stored value may be the field's bit pattern (list 
+                # elements are stored masked): compare it as the signed 
+                # number that the user reads back
+                v = int(self.val) & ((1 << f.width)-1)
+                if (v >> (f.width-1)) != 0:
+                    v -= (1 << f.width)
+                self.val = ValueScalar(v)
             
     def visit_enum_field(self, f:EnumFieldModel):
         if f.is_used_rand:
